@@ -41,6 +41,10 @@ THEOREMS = [
     "SleapVerif.C12.bottomup_perm_equivariant",
     "SleapVerif.C12.bottomup_batchsize_irrelevant",
     "SleapVerif.C12.keepTop_keeps_highest",
+    "SleapVerif.C12.forward_mode_eval",
+    "SleapVerif.C12.forward_mode_eval_append",
+    "SleapVerif.C12.topdown_mode_per_frame",
+    "SleapVerif.C12.forward_mode_asIs_counterexample",
 ]
 TOL = 1e-6      # same input ⇒ same float32 arithmetic; coordinates/values compared at 1e-6
 VAL_TIE = 1e-6
@@ -513,7 +517,7 @@ def run_cases(chk, cases, chunk=30):
 
 
 # ------------------------------------------------------------------ bottom-up
-def bu_forward(sc, idxs, fidxs, vidxs):
+def bu_forward(sc, idxs, fidxs, vidxs, us=None, history=None, info=None):
     """The REAL BottomUpInferenceModel.forward (find_local_peaks, _generate_cms_peaks, PAFScorer.predict,
     decode) on the sub-batch `idxs` of scene `sc`, around harness/c03.py's ideal-network stub; the
     batch dictionary carries frame/video indices exactly as `_predict_generator` builds it."""
@@ -532,8 +536,13 @@ def bu_forward(sc, idxs, fidxs, vidxs):
                           pafs_stride=sc["ps"], max_edge_length_ratio=sc["ratio"],
                           dist_penalty_weight=sc["weight"], n_points=sc["n_points"],
                           min_instance_peaks=sc["min_peaks"], min_line_scores=sc["min_line"])
+    stub = c03.make_stub(torch, sub, generate_multiconfmaps, generate_pafs)
+    if us is not None and any(us[i] for i in idxs):
+        stub = stubs.UndershootNet(stub, [us[i] for i in idxs], head="MultiInstanceConfmapsHead", sigma=sc["sigma_c"])
+    if history is not None:
+        stub = stubs.ModeNet(stub, sc["n_nodes"], head="MultiInstanceConfmapsHead")
     model = bu.BottomUpInferenceModel(
-        torch_model=c03.make_stub(torch, sub, generate_multiconfmaps, generate_pafs), paf_scorer=scorer,
+        torch_model=stub, paf_scorer=scorer,
         cms_output_stride=sc["cs"], pafs_output_stride=sc["ps"], peak_threshold=sc["threshold"],
         refinement=sc["refinement"], integral_patch_size=sc["patch"], return_confmaps=False,
         return_pafs=False, return_paf_graph=True, input_scale=sc["scale"])
@@ -551,7 +560,18 @@ def bu_forward(sc, idxs, fidxs, vidxs):
                   "frame_idx": torch.tensor([fidxs[i] for i in idxs], dtype=torch.int32),
                   "video_idx": torch.tensor([vidxs[i] for i in idxs], dtype=torch.int32),
                   "eff_scale": torch.tensor(sub["effs"], dtype=torch.float32)}
-        outs = model(inputs)
+        before = None
+        if history is not None:          # wrapper built first, then the call history of the inner network
+            stub.apply_history(history)
+            before = stub.stats()
+        try:
+            outs = model(inputs)
+        finally:
+            if history is not None and info is not None:
+                after = stub.stats()
+                info["modes"] = info.get("modes", []) + list(stub.mode_log)
+                info["stats_changed"] = info.get("stats_changed", False) or not (
+                    before[0].equal(after[0]) and before[1].equal(after[1]) and before[2] == after[2])
     finally:
         bu.find_local_peaks = o_flp
     assert len(outs) == 1
@@ -606,18 +626,56 @@ def bottomup_cases(chk, n, given=None):
         nF = len(sc["frames"])
         fidxs = rng.sample(range(50), nF) if given is None else given[ci]["fidxs"]
         vidxs = [rng.randrange(3) for _ in range(nF)] if given is None else given[ci]["vidxs"]
-        small = {"scene": c03.frac_json(sc), "fidxs": fidxs, "vidxs": vidxs}
+        if given is not None:
+            us = given[ci].get("undershoot") or [0.0] * nF
+        elif sc["refinement"] == "integral" or ci % 4 == 1:
+            sc["refinement"], sc["patch"] = "integral", 5
+            us = [[0.0, rng.choice([0.01, 0.02, 0.04])][(b + ci) % 2] for b in range(nF)]
+        else:
+            us = [0.0] * nF
+        small = {"scene": c03.frac_json(sc), "fidxs": fidxs, "vidxs": vidxs, "undershoot": us}
+        if any(us):
+            chk.tag("bottomup_integral_with_undershoot_batchmate")
+        # ---- call histories with mode-dependent layers in the stub (renderer → BatchNorm → Dropout)
+        if given is None or given[ci].get("history"):
+            hs = stubs.HISTORIES if given is None else [given[ci]["history"]]
+            mlines = run_driver("C12.lean", [f"mode bottomup {CUR[h]}" for h in hs])
+            for h, ml in zip(hs, mlines):
+                info, differs = {}, ""
+                try:
+                    f_h = bu_forward(sc, list(range(nF)), fidxs, vidxs, us, h, info)[0]
+                    a_h = [bu_forward(sc, [i], fidxs, vidxs, us, h, info)[0][0] for i in range(nF)]
+                    pm = list(range(nF))[::-1]
+                    p_h = bu_forward(sc, pm, fidxs, vidxs, us, h, info)[0]
+                    for b in range(nF):
+                        if not bu_same(f_h[b], a_h[b]):
+                            differs = f"frame {b} in a batch of {nF} differs from the frame alone"
+                            break
+                        if not bu_same(f_h[b], p_h[pm.index(b)]):
+                            differs = f"frame {b} changes when the batch is permuted"
+                            break
+                except Exception as e:
+                    differs = f"raised {type(e).__name__}: {str(e)[:120]}"
+                chk.case(("bottomup", "modes", h, json.dumps(small, sort_keys=True, default=str)),
+                         {"case": "modes", "kind": "bottomup", "history": h, "modes_seen": sorted(set(info.get("modes", []))),
+                          "stats_changed": info.get("stats_changed", False), "differs": differs},
+                         tags=["mode_layers", "bottomup"])
+                mode_verdict(chk, "bottomup", h, any(info.get("modes", [])), info.get("stats_changed", False), differs,
+                             {**small, "history": h}, ml,
+                             {"modes_seen": sorted(set(info.get("modes", []))), "stats_changed": info.get("stats_changed", False)})
+            if given is not None:
+                continue
         try:
-            full, out_full, flat, _ = bu_forward(sc, list(range(nF)), fidxs, vidxs)
-            alone = [bu_forward(sc, [i], fidxs, vidxs)[0][0] for i in range(nF)]
+            full, out_full, flat, _ = bu_forward(sc, list(range(nF)), fidxs, vidxs, us)
+            alone = [bu_forward(sc, [i], fidxs, vidxs, us)[0][0] for i in range(nF)]
             perm = list(range(nF))
             while nF > 1 and perm == list(range(nF)):
                 rng.shuffle(perm)
-            permd = bu_forward(sc, perm, fidxs, vidxs)[0]
+            permd = bu_forward(sc, perm, fidxs, vidxs, us)[0]
             Bc = rng.randrange(1, nF + 1)
             chunked = []
             for c0 in range(0, nF, Bc):
-                chunked += bu_forward(sc, list(range(c0, min(nF, c0 + Bc))), fidxs, vidxs)[0]
+                chunked += bu_forward(sc, list(range(c0, min(nF, c0 + Bc))), fidxs, vidxs, us)[0]
         except Exception as e:
             chk.disagree("bottom-up forward raised where the model does not", small, f"raise:{type(e).__name__}: {str(e)[:200]}", "ok")
             chk.fail(f"C12: BottomUpInferenceModel raised {type(e).__name__} on a well-formed batch: {str(e)[:200]}", small, None)
